@@ -35,7 +35,7 @@ class Buf:
         return self.text != self.saved
 
 
-def gen_history(R, nfiles, n):
+def gen_history(R, nfiles, n, R2=None):
     ops = []
     letters = iter('ABCDEFGHIJKLMNOPQRSTUVWXYZabcdefghijklmnopqrstuvwxyz0123456789' * 4)
     for _ in range(n):
@@ -74,6 +74,12 @@ def gen_history(R, nfiles, n):
             ops.append(('disk', None))      # filled in at run time: change an open, non-current file on disk
         else:
             ops.append(('move', R.choice([b'2', b'1', b'$'])))
+    if R2 is not None:
+        # quits that should be refused (they jump to the first modified buffer of the table), each preceded by a forced switch
+        # away from a buffer that may be modified and a line move in the buffer reached
+        for _ in range(R2.randint(1, 3)):
+            at = R2.randint(1, len(ops))
+            ops[at:at] = [('e!', b'e! f%d' % R2.randint(1, nfiles)), ('move', R2.choice([b'2', b'$', b'3'])), ('q', b'q')]
     return ops
 
 
@@ -84,7 +90,7 @@ def run_history(args):
     files = {('f%d' % i): b''.join(b'f%d line %d\n' % (i, j) for j in range(1, R.randint(2, 5) + 1)) for i in range(1, nfiles + 1)}
     files['alt'] = b'REPLACED ON DISK\n'
     files['tags'] = b''.join(b't%d\tf%d\t2\n' % (i, i) for i in range(1, nfiles + 1))
-    ops = gen_history(R, nfiles, R.randint(10, 50))
+    ops = gen_history(R, nfiles, R.randint(10, 50), rng('c20q', idx) if idx % 2 else None)
     if nfiles == 16 and R.random() < 0.8:
         # fill the whole table first (edits and line moves in some buffers), then wander: returning to the
         # least recently used slots is where a table of exactly 16 entries is most fragile
@@ -233,6 +239,17 @@ def run_history(args):
                         nextid += 1
                         bufs.insert(0, b)
                 switched = not refused
+        elif kind == 'q':
+            dirty = [b for b in bufs if b.flag]
+            if not dirty:
+                return bad, nsw, nchk, 'cut: quit with nothing modified'
+            if observe(k) is None:
+                fail('quit-with-dirty-buffer', ':q in mid-history exited although %s are modified' % [b.path for b in dirty], k)
+                return bad, nsw, nchk, None
+            if dirty[0] is not bufs[0]:
+                bufs.remove(dirty[0])
+                bufs.insert(0, dirty[0])
+                switched = True
         elif kind == 'bdel':
             if len(bufs) > 1:
                 bufs.pop(0)
